@@ -225,6 +225,54 @@ def inline_helpers(repo, module, expr, depth=0, skip=()):
     return Tr().visit(_copy.deepcopy(expr))
 
 
+def inline_self_methods(ci, expr, depth=0):
+    """expression-level twin of inline_helpers for small methods of the same class:  self._m(a) / Cls._m(a)  ->  returned expression of
+    _m with parameters substituted (body = simple assignments + one return)"""
+    if depth > 3:
+        return expr
+
+    class Tr(ast.NodeTransformer):
+        def visit_Call(self, node):
+            self.generic_visit(node)
+            f_ = node.func
+            if not (isinstance(f_, ast.Attribute) and isinstance(f_.value, ast.Name) and f_.value.id in ("self", "cls", ci.name)):
+                return node
+            m = ci.find_method(f_.attr)
+            if m is None:
+                return node
+            fn = m.node
+            body = [s_ for s_ in fn.body if not (isinstance(s_, ast.Expr) and isinstance(s_.value, ast.Constant))]
+            body = [s_ for s_ in body if not isinstance(s_, (ast.Assert, ast.Pass))]
+            if not body or not isinstance(body[-1], ast.Return) or body[-1].value is None or len(body) > 6:
+                return node
+            if not all(isinstance(s_, ast.Assign) for s_ in body[:-1]):
+                return node
+            if any(isinstance(a, ast.Starred) for a in node.args) or fn.args.vararg or fn.args.kwarg:
+                return node
+            static = any(isinstance(d_, ast.Name) and d_.id == "staticmethod" for d_ in fn.decorator_list)
+            params = [a.arg for a in fn.args.posonlyargs + fn.args.args]
+            if not static:
+                params = params[1:]
+            binding = {}
+            for k, a in enumerate(node.args):
+                if k < len(params):
+                    binding[params[k]] = a
+            for kw in node.keywords:
+                if kw.arg:
+                    binding[kw.arg] = kw.value
+            pos = (fn.args.posonlyargs + fn.args.args)
+            for a, d in zip(pos[len(pos) - len(fn.args.defaults):], fn.args.defaults):
+                binding.setdefault(a.arg, d)
+            if any(p_ not in binding for p_ in params):
+                return node
+            defs = local_defs_with_unpack(body[:-1])
+            defs.update(binding)
+            out = Canon(defs).expand(body[-1].value)
+            return inline_self_methods(ci, out, depth + 1)
+    import copy as _copy
+    return Tr().visit(_copy.deepcopy(expr))
+
+
 def splice_self_calls(ci, fnode, depth=0):
     """statement-level inlining of private helper methods of the same class, so that path / ownership rules over a method see
     through `split a long method`:
